@@ -101,11 +101,18 @@ def run(tier):
                 else:
                     ctx.violation(f"set-order-dependent(unreplayed):{kind}:{label}:{oname}", f"{src!r} [{oname}]: outputs differ over modelled set orders ({diff}) but the {len(seeds)} real hash seeds tried agree", {"source": src, "options": opts})
     # history independence in one process
-    seq = [(src, opts) for (_, src) in PROGRAMS[:8] for (_, opts) in OPTION_SETS]
+    # programs whose translation needs per-conversion state the tool keeps in module / class level objects if it is
+    # careless: the HBUFF prologue, names DIMensioned by an earlier program, procedures bundled for an earlier program
+    HIST = ["10 HBUFF 1 , 100", '10 DIM N$ , M$ ( 3 ) : N$ = "A"', '10 N$ = "B" : PRINT N$', "10 HBUFF 2 , 50 : HGET ( 1 , 2 ) - ( 3 , 4 ) , 2", '10 PLAY "A" : CLS', "10 A = 1"]
+    HOPTS = [dict(add_standard_prefix=True, add_suffix=True, skip_procedure_headers=True, default_str_storage=40, initialize_vars=True),
+             dict(add_standard_prefix=True, add_suffix=True, skip_procedure_headers=False, output_dependencies=True, procname="prog"),
+             dict(add_standard_prefix=True, add_suffix=True, skip_procedure_headers=False, output_dependencies=True)]
+    seq = [(src, opts) for (_, src) in PROGRAMS[:8] for (_, opts) in OPTION_SETS] + [(src, opts) for src in HIST for opts in HOPTS]
+    nbase = 8 * len(OPTION_SETS)
     fresh = {}
     for i, (src, opts) in enumerate(seq):
         code = ("import sys, json; sys.path.insert(0, %r); from coco.b09 import compiler; print(json.dumps(compiler.convert(%r, **%r)))" % (REPO, src + "\n", opts))
-        if i % 3 == 2 or tier == "thorough":
+        if i % 3 == 2 or tier == "thorough" or i >= nbase:
             r = subprocess.run([sys.executable, "-c", code], env=dict(os.environ, PYTHONHASHSEED="0"), capture_output=True, text=True, timeout=120)
             fresh[i] = json.loads(r.stdout) if r.returncode == 0 else None
     hist = []
